@@ -243,21 +243,22 @@ def run(ctx):
         flat = []
         for s_ in stmts:
             flat += A.kids(s_) if s_.get("kind") == "CompoundStmt" else [s_]
-        ifs = [x for x in flat if x.get("kind") == "IfStmt"]
-        if not ifs:
-            raise AnalysisBroken("%s: no element-type guard in case 'a'" % fn.get("name"))
+        def recurses(branch):
+            return branch is not None and any(A.callee_name(c) in ("rtosc_arg_vals_eq", "rtosc_arg_vals_cmp") for c in A.calls_in(branch))
+        # the guard: the top-level `if` of the case with the element comparison on exactly one side; what precedes it
+        # (locals, normalisation of the type letters) is evaluated first
+        ifs = [x for x in flat if x.get("kind") == "IfStmt" and
+               recurses(A.kids(x)[1]) != recurses(A.kids(x)[2] if len(A.kids(x)) > 2 else None)]
+        if len(ifs) != 1:
+            raise AnalysisBroken("%s: the element comparison is not on exactly one side of one guard in case 'a' (%d candidates)" % (fn.get("name"), len(ifs)))
         the_if = ifs[0]
         before = flat[:flat.index(the_if)]
         cond = A.kids(the_if)[0]
-
-        def recurses(branch):
-            return branch is not None and any(A.callee_name(c) in ("rtosc_arg_vals_eq", "rtosc_arg_vals_cmp") for c in A.calls_in(branch))
         then_b = A.kids(the_if)[1]
         else_b = A.kids(the_if)[2] if len(A.kids(the_if)) > 2 else None
-        if recurses(then_b) == recurses(else_b):
-            raise AnalysisBroken("%s: the element comparison is not on exactly one side of the guard in case 'a'" % fn.get("name"))
         ps = u.params(fn)
         tab = {}
+        signs = {}
         alpha = sorted(set("ifsbhtdScrmTFNI"))
         for lt, rt in itertools.product(alpha, alpha):
             def call(name, args, n, lt=lt, rt=rt):
@@ -272,13 +273,21 @@ def run(ctx):
             ev = FD.Eval(env={ps[0]["id"]: "L", ps[1]["id"]: "R"}, call=call)
             try:
                 for s_ in before:
-                    if s_.get("kind") == "DeclStmt":
-                        ev.run(s_)
+                    ev.run(s_)
                 taken = then_b if ev.ev(cond) else else_b
                 tab[(lt, rt)] = 1 if recurses(taken) else 0
+                if not recurses(taken) and taken is not None:
+                    # the answer given from the element types alone
+                    asg = [y for y in A.walk(taken) if y.get("kind") == "BinaryOperator" and y.get("opcode") == "=" and A.ref_id(A.kids(y)[0])]
+                    if len(asg) == 1:
+                        ev.env.setdefault(A.ref_id(A.kids(asg[0])[0]), 0)
+                        ev.run(taken)
+                        signs[(lt, rt)] = ev.env[A.ref_id(A.kids(asg[0])[0])]
             except FD.Unknown as e:
                 raise AnalysisBroken("R16.2: guard of %s not evaluable: %s" % (fn.get("name"), e))
+        guard_table.signs[fn.get("name")] = signs
         return tab, the_if
+    guard_table.signs = {}
     ge, ife = guard_table(eqf)
     gc, ifc = guard_table(cmpf)
     diff = sorted(k for k in ge if ge[k] != gc[k])
@@ -288,6 +297,23 @@ def run(ctx):
     asym = sorted(k for k in ge if ge[k] != ge[(k[1], k[0])])
     ctx.ob("R16.2", "array-guard symmetric", not asym and all(ge[(t, t)] == 1 for t in "ifsbTF"), site=A.where(ife),
            detail={"asymmetric_pairs": ["%s/%s" % d for d in asym[:8]]}, what="eq's array guard is not symmetric: %s" % asym[:4])
+
+    # element types the guard declares comparable (T with F) must stand in the same place relative to every third type:
+    # otherwise X=[T F] < [nil] < [F T]=Z by type letter while X > Z element-wise
+    ctx.rule("R16.6", "ARRAY-ORDER-CLASS: two array element types that the guard treats as comparable are ordered identically against every other element type (the order by type letter must not tell them apart), so that the element-wise order inside the class and the letter order between classes compose to a transitive order")
+    sg = guard_table.signs.get("rtosc_arg_vals_cmp_single", {})
+    alpha6 = sorted(set("ifsbhtdScrmTFNI"))
+    bad6 = []
+    for a_ in alpha6:
+        for b_ in alpha6:
+            if a_ < b_ and gc[(a_, b_)] == 1:
+                for z_ in alpha6:
+                    if z_ in (a_, b_) or gc[(a_, z_)] == 1 or gc[(b_, z_)] == 1:
+                        continue
+                    if sign(sg.get((a_, z_), 0)) != sign(sg.get((b_, z_), 0)) or sign(sg.get((z_, a_), 0)) != sign(sg.get((z_, b_), 0)):
+                        bad6.append({"comparable": a_ + "/" + b_, "third": z_, "cmp(%s,%s)" % (a_, z_): sg.get((a_, z_)), "cmp(%s,%s)" % (b_, z_): sg.get((b_, z_))})
+    ctx.ob("R16.6", "array element types", not bad6, site=A.where(ifc), detail={"incomparable_pairs_evaluated": len(sg), "mismatches": bad6[:6]},
+           what="the array case orders comparable element types differently against a third type: %s - three arrays of these types compare intransitively" % bad6[:2])
 
     # ---- R16.3
     bad = []
